@@ -121,6 +121,45 @@ func init() {
 		}
 		return mkBool(map[bool]string{true: "true", false: "false"}[fv.Fn.RelString(sc.st.e.P.TPkg) == x.Args[1].Name])
 	}
+	// boundRecv(f, "(T).m"): the receiver the method value f was bound to (f must be a method value of that method)
+	specFuncs["boundRecv"] = func(sc *SpecCtx, x *SExpr) Val {
+		f := sc.eval(x.Args[0])
+		if x.Args[1].Op != "str" {
+			sc.fail("boundRecv: second argument is a method name in quotes")
+		}
+		fv := f.F
+		if fv == nil && len(f.C) == 1 {
+			fv = sc.st.funcs[f.C[0]]
+		}
+		if fv == nil && len(f.C) == 1 {
+			// read back from memory: the receiver of whichever method value of that method (created on this path) f
+			// equals; all-zero components if it equals none of them
+			var cands []string
+			for id, cand := range sc.st.funcs {
+				if len(cand.Bindings) == 1 && cand.Fn.RelString(sc.st.e.P.TPkg) == x.Args[1].Name+"$bound" {
+					cands = append(cands, id)
+				}
+			}
+			sort.Strings(cands)
+			if len(cands) == 0 {
+				sc.fail("boundRecv: no method value of %s on this path", x.Args[1].Name)
+			}
+			first := sc.st.funcs[cands[0]].Bindings[0]
+			out := Val{T: first.T, C: make([]string, len(first.C))}
+			zero := sc.st.e.zero(first.T)
+			for k := range out.C {
+				out.C[k] = zero.C[k]
+				for _, id := range cands {
+					out.C[k] = ite(eq(f.C[0], id), sc.st.funcs[id].Bindings[0].C[k], out.C[k])
+				}
+			}
+			return out
+		}
+		if fv == nil || len(fv.Bindings) != 1 || fv.Fn.RelString(sc.st.e.P.TPkg) != x.Args[1].Name+"$bound" {
+			sc.fail("boundRecv: not a method value of %s", x.Args[1].Name)
+		}
+		return fv.Bindings[0]
+	}
 	// isBound(f, "(*T).m", recv): f is the method value recv.m
 	specFuncs["isBound"] = func(sc *SpecCtx, x *SExpr) Val {
 		f := sc.eval(x.Args[0])
